@@ -137,13 +137,16 @@ End Pres.
 (** connection updates that leave buffer and connection state alone and never clear [c_disc] *)
 Definition keeps_buf (f : conn -> conn) : Prop :=
   forall k, c_buf (f k) = c_buf k /\ c_st (f k) = c_st k /\ (c_disc k = true -> c_disc (f k) = true).
+(** ... and, for the updates the dispatch glue makes (receive counters, 4-octet-AS flag), that
+    also leave the sent counters alone *)
+Definition keeps_glue (f : conn -> conn) : Prop := keeps_buf f /\ forall k, c_sent (f k) = c_sent k.
 
 Section PresGlue.
 Variable P : world -> Prop.
 Hypothesis OK : prims_ok P.
 Record glue_ok : Prop := {
   g_handler : forall h w, P w -> P (emit (OHandler h) w);
-  g_upd : forall c f w, keeps_buf f -> P w -> P (upd_conn c f w);
+  g_upd : forall c f w, keeps_glue f -> P w -> P (upd_conn c f w);
   g_hold : forall n w, P w -> P (set_w_hold n w);
   g_ka3 : forall n w, P w -> P (set_w_ka3 n w);
   g_capr : forall l w, P w -> P (set_w_capr l w)
@@ -151,8 +154,8 @@ Record glue_ok : Prop := {
 Hypothesis GK : glue_ok.
 Variable D : decoders.
 
-Lemma keeps_on_recv f : keeps_buf (on_recv f). Proof. intro; repeat split; auto. Qed.
-Lemma keeps_asn4 s : keeps_buf (set_c_asn4 s). Proof. intro; repeat split; auto. Qed.
+Lemma keeps_on_recv f : keeps_glue (on_recv f). Proof. split; intro; repeat split; auto. Qed.
+Lemma keeps_asn4 s : keeps_glue (set_c_asn4 s). Proof. split; intro; repeat split; auto. Qed.
 
 Lemma pres_negotiate_hold_time h w : P w -> P (negotiate_hold_time h w).
 Proof.
